@@ -482,6 +482,59 @@ func TestC09_Headers(t *testing.T) {
 				return
 			}
 		}
+		// ---- headers on a side chain: the rules read the header's own ancestors, not whatever block
+		// is canonical at their height. Two branches of 2-3 zone blocks each are built from the tip;
+		// the node ends up following branch A, branch B stays stored as a side chain. Every B block
+		// (and an up-scaled copy of its header, so that the time difference matters at any size)
+		// must verify / re-derive from its own parent and grandparent.
+		{
+			A, B := a, a.Fork(a.Salt+9000)
+			for k, d := 0, rapid.IntRange(2, 3).Draw(t, "sideDepthA"); k < d; k++ {
+				if err := A.Adopt(); err != nil {
+					t.Fatalf("HARNESS: adopt A: %v", err)
+				}
+				if _, err := A.MineRandomOrder(t, sim.Zone); err != nil {
+					t.Fatalf("HARNESS: mine A: %v", err)
+				}
+			}
+			base := len(B.Blocks)
+			for k, d := 0, rapid.IntRange(2, 3).Draw(t, "sideDepthB"); k < d; k++ {
+				if err := B.Adopt(); err != nil {
+					t.Fatalf("HARNESS: adopt B: %v", err)
+				}
+				if _, err := B.MineRandomOrder(t, sim.Zone); err != nil {
+					t.Fatalf("HARNESS: mine B: %v", err)
+				}
+			}
+			if err := A.Adopt(); err != nil {
+				t.Fatalf("HARNESS: back to A: %v", err)
+			}
+			hc := n.Nodes[sim.Zone].Core.Slice().HeaderChain()
+			for i := base + 1; i < len(B.Blocks); i++ {
+				child, parent := B.Blocks[i].Zone(), B.Blocks[i-1].Zone()
+				grand := hc.GetHeaderByHash(parent.ParentHash(sim.Zone))
+				if grand == nil {
+					t.Fatalf("HARNESS: side-chain grandparent missing")
+				}
+				if canon := hc.GetHeaderByNumber(parent.NumberU64(sim.Zone) - 1); canon != nil && canon.Hash() != grand.Hash() {
+					stats.Label(part, "side_chain_grandparent_not_canonical")
+				}
+				if err := hc.VerifVerifyHeader(child, parent, false, int64(child.Time())); err != nil {
+					stats.Violation(t, part, "C09/side-chain-header-refused", fmt.Sprintf("block #%d of a stored side chain, accepted when it was appended, is refused while another branch is canonical: %v", child.NumberU64(sim.Zone), err), dump())
+					return
+				}
+				big1 := types.CopyWorkObjectHeader(parent.WorkObjectHeader())
+				big1.SetDifficulty(new(big.Int).Lsh(big.NewInt(1), uint(rapid.IntRange(30, 60).Draw(t, "sideBits"))))
+				pw := types.CopyWorkObject(parent)
+				pw.SetWorkObjectHeader(big1)
+				want := refDifficulty(pw, grand, hc.IsGenesisHash(grand.Hash()), big.NewInt(5), big.NewInt(16))
+				if got := hc.CalcDifficulty(big1, child.ExpansionNumber()); got == nil || got.Cmp(want) != 0 {
+					stats.Violation(t, part, "C09/derived/difficulty-on-side-chain", fmt.Sprintf("difficulty after side-chain block #%d (scaled to %v, time %d, its parent's time %d): CalcDifficulty gives %v, the rule applied to its own parent gives %v", parent.NumberU64(sim.Zone), big1.Difficulty(), parent.Time(), grand.Time(), got, want), dump())
+					return
+				}
+				stats.Label(part, "side_chain_header_checked")
+			}
+		}
 		var kl []string
 		for k := range seenDev {
 			kl = append(kl, k)
